@@ -50,20 +50,7 @@ theorem bind_cases {α β} {m : HM α} {f : α → HM β} (s : HSt) (G : Except 
 /-- same object, same successor, same netlink requests, same oracle values still to come -/
 def SameBut (s0 s : HSt) : Prop := s.me = s0.me ∧ s.succ = s0.succ ∧ s.nl = s0.nl ∧ s.tape.vals = s0.tape.vals
 
-macro "keeps_s" : tactic => `(tactic| repeat' (first
-  | exact Keeps.pure _
-  | exact Keeps.raise _
-  | exact Keeps.read _
-  | apply Keeps.bind
-  | intro _
-  | split
-  | (simp only [markBad]; apply Keeps.modify; intro s h; simp_all [SameBut]; done)))
-
-theorem getPayload_same (s0 m pt e) : Keeps (SameBut s0) (getPayload m pt e) := by unfold getPayload; keeps_s
-theorem illTyped_same (s0) {α} : Keeps (SameBut s0) (illTyped : HM α) := by unfold illTyped; keeps_s
-theorem saOf_same (s0 p) : Keeps (SameBut s0) (saOf p) := by unfold saOf; split; exact Keeps.pure _; exact illTyped_same s0
-theorem nonceOf_same (s0 p) : Keeps (SameBut s0) (nonceOf p) := by unfold nonceOf; split; exact Keeps.pure _; exact illTyped_same s0
-theorem keOf_same (s0 p) : Keeps (SameBut s0) (keOf p) := by unfold keOf; split; exact Keeps.pure _; exact illTyped_same s0
+theorem liftE_same (s0 : HSt) {α} (x : Except Exc α) : Keeps (SameBut s0) (liftE x) := Keeps.liftE _
 
 /-- **cookie first**: a responder IKE_SA that was handed the cookie secret answers a request without the valid cookie with the
     expected cookie (or, when SA / NONCE / KE is missing, with the error for that) — having consulted no oracle but the cookie
@@ -80,25 +67,16 @@ theorem negotiateIkeRequest_cookie_first (s : HSt) (m : Msg) (enc : Bool) (expec
   have gerr : ∀ e s', SameBut s s' → G (.error e, s') := fun e s' h => ⟨⟨e, rfl⟩, h.1, h.2.1, h.2.2.1, Or.inl h.2.2.2⟩
   show G (negotiateIkeRequest .me m enc s)
   unfold negotiateIkeRequest
-  -- six read-only steps
-  refine bind_cases s G (fun e s' h => gerr e s' (by have := (getPayload_same s m ptSA enc).keep s hs; rwa [h] at this)) ?_
+  -- three pure look-ups
+  refine bind_cases s G (fun e s' h => gerr e s' (by have := (liftE_same s (paySA m enc)).keep s hs; rwa [h] at this)) ?_
   intro a1 s1 h1
-  have hs1 : SameBut s s1 := by have := (getPayload_same s m ptSA enc).keep s hs; rwa [h1] at this
-  refine bind_cases s1 G (fun e s' h => gerr e s' (by have := (saOf_same s a1).keep s1 hs1; rwa [h] at this)) ?_
+  have hs1 : SameBut s s1 := by have := (liftE_same s (paySA m enc)).keep s hs; rwa [h1] at this
+  refine bind_cases s1 G (fun e s' h => gerr e s' (by have := (liftE_same s (payNonce m enc)).keep s1 hs1; rwa [h] at this)) ?_
   intro a2 s2 h2
-  have hs2 : SameBut s s2 := by have := (saOf_same s a1).keep s1 hs1; rwa [h2] at this
-  refine bind_cases s2 G (fun e s' h => gerr e s' (by have := (getPayload_same s m ptNONCE enc).keep s2 hs2; rwa [h] at this)) ?_
-  intro a3 s3 h3
-  have hs3 : SameBut s s3 := by have := (getPayload_same s m ptNONCE enc).keep s2 hs2; rwa [h3] at this
-  refine bind_cases s3 G (fun e s' h => gerr e s' (by have := (nonceOf_same s a3).keep s3 hs3; rwa [h] at this)) ?_
-  intro a4 s4 h4
-  have hs4 : SameBut s s4 := by have := (nonceOf_same s a3).keep s3 hs3; rwa [h4] at this
-  refine bind_cases s4 G (fun e s' h => gerr e s' (by have := (getPayload_same s m ptKE enc).keep s4 hs4; rwa [h] at this)) ?_
-  intro a5 s5 h5
-  have hs5 : SameBut s s5 := by have := (getPayload_same s m ptKE enc).keep s4 hs4; rwa [h5] at this
-  refine bind_cases s5 G (fun e s' h => gerr e s' (by have := (keOf_same s a5).keep s5 hs5; rwa [h] at this)) ?_
-  intro a6 s6 h6
-  have hs6 : SameBut s s6 := by have := (keOf_same s a5).keep s5 hs5; rwa [h6] at this
+  have hs2 : SameBut s s2 := by have := (liftE_same s (payNonce m enc)).keep s1 hs1; rwa [h2] at this
+  refine bind_cases s2 G (fun e s' h => gerr e s' (by have := (liftE_same s (payKE m enc)).keep s2 hs2; rwa [h] at this)) ?_
+  intro a5 s6 h6
+  have hs6 : SameBut s s6 := by have := (liftE_same s (payKE m enc)).keep s2 hs2; rwa [h6] at this
   -- the object the routine works on is `self`
   refine bind_cases s6 G (fun e s' h => by simp [getSlot, getMe] at h) ?_
   intro x s7 h7
@@ -111,17 +89,11 @@ theorem negotiateIkeRequest_cookie_first (s : HSt) (m : Msg) (enc : Bool) (expec
   cases h
   exact ⟨⟨_, rfl⟩, hs6.1, hs6.2.1, hs6.2.2.1, Or.inr rfl⟩
 
-theorem getPayload_some (m : Msg) (pt : Nat) (e : Bool) (p : Payload) (s : HSt)
-    (h : (payloadsOf m e).find? (fun p => decide (p.ptype = pt)) = some p) : getPayload m pt e s = (.ok p, s) := by
-  unfold getPayload; rw [h]; rfl
-
 /-- the complete answer of `process_ike_sa_init_request` under load: COOKIE with the expected value, nothing else -/
 theorem processIkeSaInitRequest_cookie (me : XSa) (succ : Option XSa) (m : Msg) (expected : Bytes) (rest : List TVal) (bad : Bool)
-    (p1 p2 p3 : Payload) (ps : List Proposal) (nonce : Bytes) (g : Nat) (ke : Bytes)
+    (ps : List Proposal) (nonce : Bytes) (g : Nat) (ke : Bytes)
     (hst : me.core.st = stINITIAL) (hc : me.core.cookie = true)
-    (h1 : (payloadsOf m false).find? (fun p => decide (p.ptype = ptSA)) = some p1) (b1 : p1.body = .sa ps)
-    (h2 : (payloadsOf m false).find? (fun p => decide (p.ptype = ptNONCE)) = some p2) (b2 : p2.body = .nonce nonce)
-    (h3 : (payloadsOf m false).find? (fun p => decide (p.ptype = ptKE)) = some p3) (b3 : p3.body = .ke g ke)
+    (h1 : paySA m false = .ok ps) (h2 : payNonce m false = .ok nonce) (h3 : payKE m false = .ok (g, ke))
     (hbad : ∀ p sp d tl, getNotifies m nCOOKIE false = (p, sp, d) :: tl → d ≠ expected) :
     let o := runH (processIkeSaInitRequest m) me succ { vals := TVal.bytes expected :: rest, bad := bad }
     o.res = .ikeError (mkNotify 0 nCOOKIE [] expected) ∧ o.me = me ∧ o.succ = succ ∧ o.nl = [] ∧ o.tape.vals = rest := by
@@ -132,8 +104,7 @@ theorem processIkeSaInitRequest_cookie (me : XSa) (succ : Option XSa) (m : Msg) 
   have : processIkeSaInitRequest m { me := me, succ := succ, tape := { vals := TVal.bytes expected :: rest, bad := bad } } =
       (.error (excCookie expected), { me := me, succ := succ, tape := { vals := rest, bad := bad } }) := by
     unfold processIkeSaInitRequest negotiateIkeRequest
-    simp only [HM.bind_def, checkInStates, getMe, hst, getPayload_some _ _ _ _ _ h1, getPayload_some _ _ _ _ _ h2,
-      getPayload_some _ _ _ _ _ h3, saOf, nonceOf, keOf, b1, b2, b3, HM.pure_def, getSlot]
+    simp only [HM.bind_def, checkInStates, getMe, hst, liftE, h1, h2, h3, HM.pure_def, getSlot]
     simp only [stINITIAL, List.contains_cons, List.contains_nil, beq_self_eq_true, Bool.or_false, if_true, HM.pure_def]
     rw [hck _ rfl rfl]
   refine ⟨?_, ?_, ?_, ?_, ?_⟩
